@@ -92,6 +92,10 @@ pub fn exchange(addr: SocketAddr, req: &HttpReq, enc: Encoding, write_sizes: &[u
     let mut head = Vec::new();
     head.extend_from_slice(format!("{} {} HTTP/1.1\r\nHost: {}\r\nConnection: close\r\n", req.method, req.path, addr).as_bytes());
     for (n, v) in &req.headers {
+        // the framing headers are this function's business
+        if n.eq_ignore_ascii_case("content-length") || n.eq_ignore_ascii_case("transfer-encoding") {
+            continue;
+        }
         head.extend_from_slice(n.as_bytes());
         head.extend_from_slice(b": ");
         head.extend_from_slice(v);
